@@ -8,12 +8,14 @@ import (
 	"os"
 	"os/exec"
 	"regexp"
+	"sort"
 	"strings"
 	"sync"
 	"time"
 
 	"seehuhn.de/go/postscript"
 	"seehuhn.de/go/postscript/afm"
+	"seehuhn.de/go/postscript/psenc"
 	"seehuhn.de/go/postscript/type1"
 	"seehuhn.de/go/postscript/type1/names"
 
@@ -74,9 +76,25 @@ func genConcOp(t *sim.Tape) concOp {
 	case 3: // font write
 		f := gen.GenFont(t, 8)
 		format := sim.Pick(t, gen.FontFormats)
-		return concOp{fmt.Sprintf("Font.Write(format %d)", format), func() string {
+		var opt *type1.WriterOptions
+		switch t.Choose(4) {
+		case 0:
+			opt = nil // the package's default options
+		case 1:
+			opt = &type1.WriterOptions{}
+		default:
+			opt = &type1.WriterOptions{Format: format}
+		}
+		if t.Bool(1, 6) {
+			return concOp{"Font.WritePDF", func() string {
+				var buf bytes.Buffer
+				a, b, err := f.WritePDF(&buf)
+				return fmt.Sprintf("%s %d %d %s", dump.Err(err), a, b, buf.String())
+			}}
+		}
+		return concOp{fmt.Sprintf("Font.Write(%+v)", opt), func() string {
 			var buf bytes.Buffer
-			err := f.Write(&buf, &type1.WriterOptions{Format: format})
+			err := f.Write(&buf, opt)
 			return dump.Err(err) + " " + buf.String()
 		}}
 	case 4: // AFM
@@ -165,6 +183,26 @@ errordict /typecheck known 1 (a) add
 		err := f.Write(&buf, &type1.WriterOptions{Format: format})
 		g, err2 := type1.Read(bytes.NewReader(buf.Bytes()))
 		fmt.Fprintf(&sb, "\nformat %d: %s %s %x %s", format, dump.Err(err), dump.Err(err2), sim.HashBytes(buf.Bytes()), dump.Font(g))
+	}
+	// default options, the PDF form, the queries, and the exported tables
+	{
+		var buf bytes.Buffer
+		err := f.Write(&buf, nil)
+		fmt.Fprintf(&sb, "\nnil options: %s %x", dump.Err(err), sim.HashBytes(buf.Bytes()))
+		buf.Reset()
+		err = f.Write(&buf, &type1.WriterOptions{})
+		fmt.Fprintf(&sb, "\nzero options: %s %x", dump.Err(err), sim.HashBytes(buf.Bytes()))
+		buf.Reset()
+		l1, l2, err := f.WritePDF(&buf)
+		fmt.Fprintf(&sb, "\nWritePDF: %s %d %d %x", dump.Err(err), l1, l2, sim.HashBytes(buf.Bytes()))
+		fmt.Fprintf(&sb, "\nqueries: %q %v %v %d", f.GlyphList(), f.FontBBox(), f.FontBBoxPDF(), f.NumGlyphs())
+		fmt.Fprintf(&sb, "\npsenc: %q", psenc.StandardEncoding)
+		rev := make([]string, 0, len(psenc.StandardEncodingRev))
+		for k, v := range psenc.StandardEncodingRev {
+			rev = append(rev, fmt.Sprintf("%s=%d", k, v))
+		}
+		sort.Strings(rev)
+		fmt.Fprintf(&sb, " rev=%q", rev)
 	}
 	m := &afm.Metrics{Glyphs: map[string]*afm.GlyphInfo{"A": {WidthX: 500, Ligatures: map[string]string{"B": "A_B", "C": "A_C"}}, "B": {WidthX: 400}}, Encoding: make([]string, 256), FontName: "P", FullName: "P Q"}
 	for i := range m.Encoding {
